@@ -470,6 +470,16 @@ class Sched:
                 a.frozen = 0        # the peer has left the function: the paused task may go on
                 self.sim.count("atomicity_pauses_released")
 
+    def callback_point(self, what):
+        """Python code entered from inside a task through a callback route (warnings.showwarning): if native code
+        issued the warning, arbitrary Python - and with it a thread switch - happens in the middle of that native
+        routine although it never releases the GIL itself.  Always a decision point."""
+        actor = self.idents.get(threading.get_ident())
+        if actor is None or actor is not self.current or actor.in_task is None:
+            return
+        self.sim.count("py_callbacks_in_task")
+        self.point(actor, "callback:" + what, force_decision=True)
+
     def _c_cb(self, site):
         actor = self.idents.get(threading.get_ident())
         if actor is None or actor is not self.current:
@@ -514,8 +524,12 @@ class Sched:
         except (ImportError, AttributeError):
             self._specpart = None
         self.active = True
+        global ACTIVE_SCHED
+        ACTIVE_SCHED = self
 
     def uninstall(self):
+        global ACTIVE_SCHED
+        ACTIVE_SCHED = None
         import dask.local as dl
 
         self.active = False
@@ -550,6 +564,17 @@ class SimPool(Executor):
 
     def shutdown(self, wait=True, **kw):
         pass
+
+
+ACTIVE_SCHED = None
+
+
+def showwarning_seam(message, category, filename, lineno, file=None, line=None):
+    """Stands in for warnings.showwarning in runs whose warning filter lets warnings through ("always"):
+    nothing is printed; reaching it from inside a task is a pre-emption point."""
+    s = ACTIVE_SCHED
+    if s is not None and s.active:
+        s.callback_point("showwarning")
 
 
 def simulated_compute(obj, sim, cfg, repo, dask_kwargs=None):
